@@ -49,7 +49,7 @@ impl Outcome {
   }
   pub fn known(mut self, k: &str) -> Self { self.known = Some(k.into()); self }
   pub fn fail(mut self, why: &str) -> Self {
-    if self.verdict == "ok" { self.verdict = format!("fail:{}", why.replace(' ', "-")); }
+    if self.verdict == "ok" { self.verdict = format!("fail:{}", why.replace(' ', "-").replace('#', "%23").replace('|', "/").replace('\n', "\\n")); }
     self
   }
   pub fn class(mut self, c: &str) -> Self { self.class = c.into(); self }
@@ -57,13 +57,16 @@ impl Outcome {
 }
 
 pub type ExecFn = fn(&[i64]) -> Outcome;
+/// decidable known-finding class of a case, used when the run itself panics (the outcome is lost)
+pub type ClassifyFn = fn(&[i64]) -> Option<&'static str>;
+pub fn no_class(_: &[i64]) -> Option<&'static str> { None }
 
 /// Runs `exec` under catch_unwind; a panic becomes the observation [PANIC_MARK] and verdict fail:panic.
-pub fn exec_caught(exec: ExecFn, case: &[i64]) -> Outcome {
+pub fn exec_caught(exec: ExecFn, classify: ClassifyFn, case: &[i64]) -> Outcome {
   let c: Vec<i64> = case.to_vec();
   match std::panic::catch_unwind(move || exec(&c)) {
     Ok(o) => o,
-    Err(_) => Outcome { obs: vec![PANIC_MARK], verdict: "fail:panic".into(), class: "panic".into(), nontrivial: true, known: None },
+    Err(_) => Outcome { obs: vec![PANIC_MARK], verdict: "fail:panic".into(), class: "panic".into(), nontrivial: true, known: classify(case).map(|k| k.to_string()) },
   }
 }
 
@@ -71,11 +74,12 @@ pub struct Sink<'a> {
   pub prop: &'static str,
   pub out: &'a mut dyn Write,
   pub exec: ExecFn,
+  pub classify: ClassifyFn,
   pub count: usize,
 }
 impl<'a> Sink<'a> {
   pub fn case(&mut self, ints: Vec<i64>, comment: &str) {
-    let o = exec_caught(self.exec, &ints);
+    let o = exec_caught(self.exec, self.classify, &ints);
     let s = |v: &[i64]| v.iter().map(|x| x.to_string()).collect::<Vec<_>>().join(" ");
     writeln!(
       self.out,
